@@ -10,6 +10,7 @@
 #include <Bpp/Numeric/AbstractParametrizable.h>
 
 #include <algorithm>
+#include <cmath>
 #include <cstring>
 #include <map>
 #include <memory>
@@ -152,8 +153,9 @@ struct World
   MList resultModel;
   bool flag;                              // boolean returned by the running call
   vector<size_t> upd;                     // updatedParameters of the running call
+  bool nearUsed;                          // the running call carries a value a minimal step away from a target's current value
 
-  explicit World(vrt::Case& cc) : c(cc), cons(), hist(), pRej(0.2), uidCounter(0), externs(), result(), resultModel(), flag(false), upd()
+  explicit World(vrt::Case& cc) : c(cc), cons(), hist(), pRej(0.2), uidCounter(0), externs(), result(), resultModel(), flag(false), upd(), nearUsed(false)
   {
     cons.push_back(ConsP());
     cons.push_back(ConsP(new IntervalConstraint(0, 1, true, true)));
@@ -174,6 +176,33 @@ struct World
     if (c.rng.chance(0.2))
       for (int i = 0; i < 8; ++i) { double v = floor(c.rng.real(-8, 8) * 64) / 64 + 0.0; if (k->isCorrect(v)) return v; }
     return c.rng.pick(ok);
+  }
+  // a value DIFFERENT from cur but a minimal step away from it: 1..3 units in the last place up or down, a relative
+  // step of 2^-40..2^-52, or an absolute step of 2^-60..2^-1074 (the last two matter for cur == 0 and for tiny cur).
+  // With the default zero precision "differs" means "is another double": such a value has to be stored, reported
+  // and validated exactly like any other new value.
+  double nearVal(double cur)
+  {
+    nearUsed = true;
+    double v = cur;
+    const double dir = c.rng.chance(0.5) ? HUGE_VAL : -HUGE_VAL;
+    const size_t how = c.rng.below(5);
+    if (how == 3)
+    {
+      static const int ex[] = { 40, 46, 50, 51, 52 };
+      v = cur + (dir > 0 ? cur : -cur) * ldexp(1.0, -ex[c.rng.below(5)]);
+    }
+    else if (how == 4)
+    {
+      static const int ex[] = { 60, 200, 1000, 1022, 1074 };
+      v = cur + (dir > 0 ? 1 : -1) * ldexp(1.0, -ex[c.rng.below(5)]);
+    }
+    if (how < 3 || v == cur)
+    {
+      v = cur;
+      for (size_t k = 0; k <= how % 3; ++k) v = nextafter(v, dir);
+    }
+    return v + 0.0; // never a negative zero
   }
   bool rejVal(const ConsP& k, double& out)
   {
@@ -388,7 +417,9 @@ bool World::exec(Plan& p)
     if (ok)
       for (int s = 0; s < NS && ok; ++s) if (slots[s].live()) ok = auditLookups(s);
     if (ok) vrt::cover(p.api + ":" + (o.returned() ? "ret" : "raise") + (p.detail.empty() ? "" : ":" + p.detail));
+    if (ok && nearUsed) vrt::cover("minimal-step:" + p.api + ":" + (o.returned() ? "ret" : "raise"));
   }
+  nearUsed = false;
   externs.clear();
   result.reset();
   resultModel.clear();
@@ -557,6 +588,7 @@ void World::makeTemp(int t, bool superset, bool subset, bool aliasing)
       const Cell& tc = *T[static_cast<size_t>(j)];
       if (tc.cons && c.rng.chance(pRej) && rejVal(tc.cons, v)) {}
       else if (c.rng.chance(0.3)) v = tc.value;
+      else if (c.rng.chance(0.2)) v = nearVal(tc.value); // accepted or not is the constraint's business (a bound may lie in between)
       else v = accVal(tc.cons);
     }
     else v = anyValue();
@@ -770,8 +802,9 @@ bool World::opSetValue(Plan& p)
     double r = c.rng.unit();
     if (r < 0.3 && rejVal(cell->cons, v)) cls = "rejected";
     else if (r < 0.4) { v = cell->value; cls = "same"; }
+    else if (r < 0.55) { v = nearVal(cell->value); cls = "minimal-step"; }
     else { v = accVal(cell->cons); cls = "accepted"; }
-    if (!accepts(*cell, v)) { cls = "rejected"; p.expectRaise = true; }
+    if (!accepts(*cell, v)) { cls = cls == "minimal-step" ? "minimal-step-rejected" : "rejected"; p.expectRaise = true; }
     else p.effects.push_back([cell, v] { cell->value = v; });
   }
   else p.expectRaise = true;
@@ -854,7 +887,12 @@ bool World::opHandle(Plan& p)
   {
     double v;
     if (c.rng.chance(0.3) && rejVal(cell->cons, v)) p.expectRaise = true;
-    else { v = accVal(cell->cons); p.effects.push_back([cell, v] { cell->value = v; }); }
+    else
+    {
+      v = c.rng.chance(0.15) ? nearVal(cell->value) : accVal(cell->cons);
+      if (!accepts(*cell, v)) p.expectRaise = true;
+      else p.effects.push_back([cell, v] { cell->value = v; });
+    }
     static const char* via[] = { "operator[]", "parameter(name)", "getParameter(i)", "getParameter(name)" };
     p.api = string("handle.setValue:") + via[how];
     if (how == 0) p.call = [L, j, v] { (*L)[j].setValue(v); };
@@ -1030,6 +1068,7 @@ bool World::opShareOne(Plan& p)
     ConsP k;
     double v;
     if (j >= 0 && c.rng.chance(0.4) && rejVal(T.m[static_cast<size_t>(j)]->cons, v)) k = ConsP();
+    else if (j >= 0 && c.rng.chance(0.25)) { v = nearVal(T.m[static_cast<size_t>(j)]->value); k = consAccepting(v); }
     else { k = anyCons(); v = accVal(k); }
     sp = make_shared<Parameter>(n, v, k);
     sc = mkCell(n, v, k, sp.get());
@@ -1518,7 +1557,7 @@ bool World::randomOp(int profile)
     case 11: ok = opLife(p, static_cast<int>(c.rng.below(3))); break;
     default: ok = opNamespace(p);
     }
-    if (!ok) { slots[3].kill(); externs.clear(); continue; }
+    if (!ok) { slots[3].kill(); externs.clear(); nearUsed = false; continue; }
     return exec(p);
   }
   return true;
@@ -1619,7 +1658,11 @@ void caseAtomic(vrt::Case& c)
       const Cell& tc = *Tm[order[q]];
       double v = tc.value;
       if (round == 0 && tc.name == offender) { if (!w.rejVal(tc.cons, v)) feasible = false; }
-      else for (int tries = 0; tries < 6 && v == tc.value; ++tries) v = w.accVal(tc.cons);
+      else
+      {
+        for (int tries = 0; tries < 6 && v == tc.value; ++tries) v = w.accVal(tc.cons);
+        if (c.rng.chance(0.25)) { double nv = w.nearVal(tc.value); if (accepts(tc, nv)) v = nv; } // the smallest change there is
+      }
       entries.push_back({ tc.name, v });
     }
     if (!feasible) return;
@@ -1655,7 +1698,8 @@ int main(int argc, char** argv)
   };
   vrt::Meta meta;
   meta.rule = "history: random histories (1..28 calls, 1..40 thorough) over up to 3 live ParameterLists / AbstractParametrizable test doubles with 0..8 parameters from a 10-name pool, "
-      "7 constraint choices (none, closed, open, half-open, half-infinite), values from a 13-point grid plus random multiples of 1/64 inside and outside the targets' constraints; three operation "
+      "7 constraint choices (none, closed, open, half-open, half-infinite), values from a 13-point grid plus random multiples of 1/64 inside and outside the targets' constraints, plus values a minimal step away from the target's current value "
+      "(1..3 ulps up/down, relative 2^-40..2^-52, absolute 2^-60..2^-1074; class keys minimal-step:<API>); three operation "
       "profiles (mix, bulk-heavy, copy/alias-heavy); sources of list-to-list calls are a temporary list overlapping the target, a temporary list sharing objects with the target, the target itself or "
       "another live list. atomic: for every bulk value update (setParametersValues, matchParametersValues, setAllParametersValues; list and owner), every list size 1..8 and every iteration position "
       "of a single rejected value, with a deep copy and a shared sub-list of the target watching, followed by the repaired source that must be applied completely. "
